@@ -12,7 +12,7 @@ RULE = (
 ASSUMPTIONS = ["strict DER = BIP66 rules + 1 <= r,s < n (vf/ref/ec.py); only malformations that every strict parser rejects are generated", "high-S DER is not treated as malformed"]
 NSHARDS = {"quick": 32, "thorough": 64}
 BUDGET_S = {"quick": 200, "thorough": 1800}
-EXTRA_BUILDS = {"thorough": ["rel"]}
+EXTRA_BUILDS = {"thorough": ["rel"]}  # used by the generic release-build stage in core
 MIN_HITS = {
     'quick': {"der_rt": 1312, "last_byte_is_flag": 554, "last_byte_not_flag": 758, "der_plus_flag": 15680, "compact_rt": 8960, "recover": 192, "der_bad": 5664, "compact_bad": 912},
     'thorough': {"der_rt": 103680, "last_byte_is_flag": 40433, "der_plus_flag": 1128960, "compact_rt": 645120, "recover": 23040, "der_bad": 168960, "compact_bad": 145920},
